@@ -1,8 +1,10 @@
 package sctp
 
 import (
+	"errors"
 	"fmt"
 	"io"
+	"strings"
 	"time"
 
 	"github.com/pion/sctp/internal/vsched"
@@ -26,6 +28,11 @@ type resetSpec struct {
 	// EagerReopen: the next cycle starts as soon as the identifier is free on both sides (both
 	// readers saw end-of-stream), without waiting for the responses to the reset requests.
 	EagerReopen bool
+	// KillResetReq: the first n packets from A that carry an outgoing reset request are lost
+	KillResetReq int
+	// DeadlineReader: B's reader works with short read deadlines and idles with an expired
+	// deadline for a while before re-arming; A writes and closes during such an idle phase
+	DeadlineReader bool
 	// C15: low-threshold callback on A's streams; the amount is above the threshold when Close
 	// is called and crosses it while the stream is closing
 	Threshold     uint64
@@ -44,6 +51,21 @@ func resetScenario(spec *resetSpec) *Scenario {
 		Horizon: 300 * time.Second,
 		Setup: func(m *Sim) {
 			m.W.faults = spec.Faults
+			if spec.KillResetReq > 0 {
+				n := 0
+				m.W.killFn = func(p *wpkt) bool {
+					if p.from != 0 || p.dec == nil {
+						return false
+					}
+					for _, c := range p.dec.Chunks {
+						if c.Typ == wRECONFIG && strings.Contains(c.Summary(), "OutReset") && n < spec.KillResetReq {
+							n++
+							return true
+						}
+					}
+					return false
+				}
+			}
 		},
 		Body: func(m *Sim) {
 			if !m.Connect(spec.A, spec.B) {
@@ -111,7 +133,14 @@ func resetCycle(m *Sim, spec *resetSpec, cycle int) bool {
 			}
 			buf := make([]byte, 4096)
 			for {
+				if spec.DeadlineReader && ep == 1 {
+					_ = s.SetReadDeadline(time.Now().Add(40 * time.Millisecond))
+				}
 				n, ppi, err := s.ReadSCTP(buf)
+				if err != nil && spec.DeadlineReader && ep == 1 && errors.Is(err, ErrReadDeadlineExceeded) {
+					m.Sleep(200 * time.Millisecond) // idle, the expired deadline stays in place
+					continue
+				}
 				if err != nil {
 					mu.Lock()
 					rerr[ep][sid] = err
@@ -144,6 +173,9 @@ func resetCycle(m *Sim, spec *resetSpec, cycle int) bool {
 				mu.Unlock()
 			})
 		}
+	}
+	if spec.DeadlineReader {
+		m.Sleep(100 * time.Millisecond)
 	}
 	// A writes and closes
 	want := [2]map[uint16][]string{{}, {}}
@@ -337,6 +369,24 @@ func propC14(j *Job) {
 							sp := *spec
 							sp.EagerReopen, sp.MsgGap, sp.Cycles = true, 1200*time.Millisecond, 3
 							j.Explore(fmt.Sprintf("R/%s/m%d/U%v/eager", mode.Name, len(sizes), unordered), resetScenario(&sp), Budget{K: k}, nil)
+							if j.capped() {
+								return
+							}
+						}
+						if !two && !late && si == 1 && !unordered {
+							// a burst of losses on the reset request itself: it is retransmitted
+							// for as long as it takes
+							sp := *spec
+							sp.KillResetReq, sp.Cycles = 7, 1
+							j.Explore(fmt.Sprintf("R/%s/m%d/reset-req-lost7", mode.Name, len(sizes)), resetScenario(&sp), Budget{K: 0}, nil)
+							if j.capped() {
+								return
+							}
+						}
+						if !two && !late && si == 2 {
+							sp := *spec
+							sp.DeadlineReader = true
+							j.Explore(fmt.Sprintf("R/%s/m%d/U%v/deadline-reader", mode.Name, len(sizes), unordered), resetScenario(&sp), Budget{K: k}, nil)
 							if j.capped() {
 								return
 							}
